@@ -32,6 +32,7 @@ def cases(seed, tier):
     q = tier == "quick"
     out = [{"fam": "inbounds", "seed": [seed, 12, i], "count": 2} for i in range(50 if q else 700)]
     out += [{"fam": "outbounds", "seed": [seed, 12, 10 ** 5 + i], "count": 2} for i in range(12 if q else 150)]
+    out += [{"fam": "wide", "seed": [seed, 12, 3 * 10 ** 5 + i], "count": 3} for i in range(16 if q else 200)]
     out += [{"fam": "vanish", "seed": [seed, 12, 2 * 10 ** 5 + i], "count": 2} for i in range(12 if q else 150)]
     if tier != "quick":
         out.append({"fam": "suite", "seed": [seed, 0, 0]})
@@ -86,16 +87,22 @@ def _one(rng, fam, mon, sigs, hist):
     from fv import env, dyn
     from fv.gen import scen, tissue, series
     import forsys as fs
-    at0 = scen.base_tissue(rng, ["vor", "arc"][int(rng.integers(2))], ncells=int(rng.integers(8, 60)))
-    at0, _ = scen.maybe_sub(rng, at0, p=0.3, min_cells=4)
+    if fam == "wide":
+        # small tissues: the junction spacing is large compared with the extent, so the 8 % bound is the binding one
+        at0 = scen.base_tissue(rng, ["vor", "arc", "lat-hex"][int(rng.integers(3))], ncells=int(rng.integers(8, 14)))
+        if len(at0.cells) > 7:
+            at0 = at0.sub(tissue.random_connected_subset(rng, at0, int(rng.integers(3, 8))))
+    else:
+        at0 = scen.base_tissue(rng, ["vor", "arc"][int(rng.integers(2))], ncells=int(rng.integers(8, 60)))
+        at0, _ = scen.maybe_sub(rng, at0, p=0.3, min_cells=4)
     if rng.random() < 0.5:
         at0 = at0.similarity(scale=10 ** rng.uniform(-1, 2), theta=rng.uniform(0, 6.28), shift=complex(*rng.uniform(-50, 50, 2)))
     nfr = int(rng.integers(2, 7))
-    cm = bool(rng.random() < 0.4)
+    cm = bool(rng.random() < 0.4) and fam != "wide"
     frac = 0.6 if fam != "outbounds" else float(rng.uniform(1.5, 4.0))
     if cm:
         frac *= 0.5
-    ats = dyn.random_series(rng, at0, nfr, frac=frac)
+    ats = dyn.random_series(rng, at0, nfr, frac=frac, wide=(fam == "wide"))
     if fam == "vanish":
         # one frame loses a border cell: its private junctions have no successor / predecessor
         jc = ats[0].jcells()
